@@ -368,26 +368,34 @@ def topCovered (vs : List Validator) (name : String) (ps : Schema) : Bool :=
   (!hasStrTop ps || vs.any (fun v => match v with | .string f _ _ _ _ => f == name | _ => false)) &&
   (!hasArrTop ps || vs.any (fun v => match v with | .array f _ _ _ => f == name | _ => false))
 
-/-- the coverage certificate (inline schemas only): every required key has its presence check, every value constraint
+/-- the coverage certificate: every required key has its presence check, every value constraint
     its validator, and nothing the fragment does not check is stated (enum, composition, not, multipleOf, format,
     constraints on array items) -/
-def certCov (env : Env) : Nat → GoTy → Schema → Bool
+def certCov (env : Env) (defs : Spec.Defs) : Nat → GoTy → Schema → Bool
   | 0, _, _ => false
   | f + 1, ty, s =>
-    s.node.ref == "" && s.node.multipleOf.isNone && s.node.format == "" &&
+    if s.node.ref ≠ "" then
+      -- a reference: the target decides; it is an inline node without scalar constraints of its own
+      (match Spec.refName s.node.ref with
+       | some name => (match alookup name defs with
+          | some t => t.node.ref == "" && topFree t && certCov env defs f ty t
+          | none => false)
+       | none => false)
+    else
+    s.node.multipleOf.isNone && s.node.format == "" &&
     match ty with
-    | .ptr t => certCov env f t s
+    | .ptr t => certCov env defs f t s
     | .named nm =>
       (match env.resolve 8 nm with
        | some d => (match d.body, d.ty with
           | .plain vs _, .strct fs =>
               s.node.required.all (fun k => vs.any (fun v => match v with | .required k' => k' == k | _ => false)) &&
               s.node.props.all (fun p => match bindKey fs p.1 with
-                | some fld => topCovered vs fld.name p.2 && certCov env f fld.ty p.2
+                | some fld => topCovered vs fld.name p.2 && certCov env defs f fld.ty p.2
                 | none => false)
           | _, _ => false)
        | none => false)
-    | .slice t => leafPlain s && (match s.node.items with | some it => topFree it && certCov env f t it | none => false)
+    | .slice t => leafPlain s && (match s.node.items with | some it => topFree it && certCov env defs f t it | none => false)
     | _ => leafPlain s
 
 end GJS
